@@ -577,3 +577,19 @@ def domain_sweep(rng, date, params):
                  "steuerklasse": np.int64, "behinderungsgrad": np.int64, "geburtsmonat": np.int64}.items():
         df[c] = df[c].astype(t)
     return df
+
+
+def historical_supplement(df, date, rng=None):
+    """Before 2015 several branches are not implemented (pension formula for today's cohorts, Elterngeld before 2011,
+    Unterhaltsvorschuss before 2009): a user of those dates supplies the amounts as data columns.  Returns a copy with
+    ges_rente_m (and, where the rule is missing, elterngeld_m / unterhaltsvors_m) added, so that the rules
+    downstream of them (contributions, taxable income, transfers) are computable."""
+    d = df.copy()
+    n = len(d)
+    r = rng.random(n) if rng is not None else np.full(n, 0.5)
+    d["ges_rente_m"] = np.where(d["rentner"].to_numpy(), np.round(400.0 + 1400.0 * r, 2), 0.0)
+    if date.year < 2011:
+        d["elterngeld_m"] = np.where((d["alter"].to_numpy() >= 20) & (d["alter"].to_numpy() < 45) & (r < 0.15), 300.0, 0.0)
+    if date.year < 2009:
+        d["unterhaltsvors_m"] = 0.0
+    return d
